@@ -36,6 +36,10 @@ func extraMode(mode string, n int, r *rand.Rand) bool {
 		for i := 0; i < n; i++ {
 			emit(genE2ETail(r))
 		}
+	case "grid12":
+		for _, x := range grid12() {
+			emit(x)
+		}
 	case "oracle":
 		for _, x := range genOracleSamples(r, n) {
 			emit(x)
